@@ -34,9 +34,12 @@ RULE = ("cells = model kind x domain geometry kind x range geometry kind x size 
 BOUND = {
     "quick": "models {Model+jacobian, Model+gradient, Model, LinearModel matrix/callables/inferred, PDEModel Poisson "
              "(plain, +jacobian_wrt_parameter, +gradient_wrt_parameter), Heat forward/backward Euler} x 15 domain "
-             "geometry kinds x (11 range geometry kinds + equal copy of the domain), one size per kind (par dims "
-             "3..6, function dims 3..7), points = basis + origin + 1 generic, gradient at 2 linearisation points x "
-             "16 representation pairs x (range_dim + 1) directions, Samples with 1..3 columns",
+             "geometry kinds {default 1-D/2-D, Continuous1D/2D, Image2D C/F/visual_only, Discrete, MappedGeometry "
+             "(+gradient), KLExpansion (+gradient), StepExpansion (+gradient), user class with gradient} x (11 range "
+             "geometry kinds + equal copy of the domain), one size per kind (par dims 2..6, function dims 3..7; the "
+             "range KL/Step grids share their 4 nodes with the plain 1-D domain), points = basis + origin + 1 generic, "
+             "gradient at 2 linearisation points x 16 representation pairs x (range_dim + 1) directions, Samples "
+             "with 1..3 columns; lin_mat only with 1-D function spaces",
     "thorough": "same product with 2 sizes per domain and per range kind (4 combinations), points = basis + origin + "
                 "3 generic, gradient linearised at every point",
 }
@@ -187,6 +190,7 @@ def _explore(res, cell):
                     % (arr.size, expect.size), rep=rep, point=pname)
             return
         compared[0] += 1
+        res.traces += 1
         if not close(arr, expect, 1e-9):
             raw.add("forward", "values", "forward(%s given as %s) = %s, composed reference fun2par(f(par2fun(p))) = %s"
                     % (pname, rep, arr[:6], expect[:6]), rep=rep, point=pname, impl=arr, ref=expect)
@@ -253,6 +257,7 @@ def _explore(res, cell):
                 raw.add("forward", "size", "output samples have shape %s, expected %s" % (S.shape, expect.shape), rep=rep)
                 continue
             compared[0] += ncol
+            res.traces += ncol
             if not close(S, expect, 1e-9):
                 raw.add("forward", "values", "column-wise application to %d column(s) differs from the composed "
                         "reference" % ncol, rep=rep, impl=S, ref=expect)
@@ -323,6 +328,7 @@ def _check_gradient(res, raw, cell, model, gd, gr, dg, rg, pts, ref):
                         raw.add("gradient", "size", "gradient has %d entries, the domain has %d parameters" % (g.size, n),
                                 wrep=wrep, drep=drep, wrt=wname, direction=dname)
                         continue
+                    res.traces += 1
                     e1 = jac(1e-3).T @ d
                     if close(g, e1, 1e-5):
                         continue
